@@ -137,6 +137,8 @@ class C12(core.Check):
             return dict(verdict=DISCARD, sig="parse:" + type(e).__name__, log=log, steps=0, hist=None)
         base = w.depths()
         top = w.ctx.context_values[-1]
+        # deep (but terminating) recursion costs about 130 steps per level: such programs get a larger step budget
+        budget_total = 140_000 if ("300 λ" in text or "450 λ" in text) else STEP_BUDGET
         sched = list(case.get("sched") or [])
         exits = progs.exits_of(case["nodes"])
         for e in exits:
@@ -181,9 +183,9 @@ class C12(core.Check):
 
         def guarded(fn):
             nonlocal steps
-            world.CLOCK.start(budget=STEP_BUDGET - steps)
+            world.CLOCK.start(budget=budget_total - steps)
             try:
-                with world.rec_limit():
+                with world.rec_limit(3000):
                     fn()
                 return None
             except world.StepBudgetExceeded:
@@ -302,10 +304,10 @@ class C12(core.Check):
         old_ctx, old_out = main.Context, sys.stdout
         main.Context = Capturing
         sys.stdout = w.out
-        world.CLOCK.start(budget=STEP_BUDGET, count_string=True)
+        world.CLOCK.start(budget=(140_000 if ("300 λ" in text or "450 λ" in text) else STEP_BUDGET), count_string=True)
         outcome = None
         try:
-            with world.rec_limit():
+            with world.rec_limit(3000):
                 main.execute_vyxal(text, "eD", [str(x) for x in case["inputs"]])
         except world.StepBudgetExceeded:
             outcome = "budget"
